@@ -75,10 +75,11 @@ Theorem C14_mixins_list_semantics : forall (s : pk X A P),
   (forall xs, opcodes (fst (m_extend R xs s)) = opcodes s ++ xs) /\
   (forall i k, py_index (List.length (opcodes s)) i = Some k ->
                opcodes (fst (m_pop R i s)) = list_del k (opcodes s)) /\
-  opcodes (fst (m_clear R s)) = [].
+  opcodes (fst (m_clear R s)) = [] /\
+  opcodes (fst (m_reverse R s)) = rev (opcodes s).
 Proof.
   intros s. split; [intros; apply m_append_list|]. split; [intros; apply m_extend_list|].
-  split; [intros; apply m_pop_list; assumption|apply m_clear_list].
+  split; [intros; apply m_pop_list; assumption|]. split; [apply m_clear_list|apply m_reverse_list].
 Qed.
 End Generic.
 
